@@ -355,6 +355,11 @@ struct InclEngine : Engine {
 			DString * topbuf = IN_LIB(scan_file(top.c_str()));
 			if (!topbuf) { o["skipped"] = "top file cannot be opened"; outs.push(o); executed++; continue; }
 			std::string toptext(topbuf->str, topbuf->currentStringLength);
+			if (!g_sim.open_log.empty() && toptext != strip_bom(g_sim.open_log[0].delivered)) {
+				// scan_file is the transcluder's only way to a file's content: what it returns must be what the file layer delivered
+				viol = Json::object(); viol["clause"] = "file_content_not_delivered"; viol["class"] = "scan_file"; viol["op"] = (int64_t)k;
+				viol["detail"] = "scan_file returned " + std::to_string(toptext.size()) + " bytes, the file layer delivered " + std::to_string(g_sim.open_log[0].delivered.size());
+			}
 			int fmt = (int)op.geti("fmt", FMT_HTML);
 			std::string got;
 			std::vector<std::string> got_manifest;
